@@ -45,35 +45,35 @@ theorem tie_String_copy (st : St) (tid d s : Nat) (h : d ≠ s) :
     (two steps: `dec; free`), false = it allocates an empty block (three steps) -/
 def emptyAssignIsStatic (body : Stmt) : Bool := (sem (strCtx (init 2) 0 0 1 siteAssign none) body).length == 2
 
-/-- `S[d] = S[s]`: the model's list is the translated body — for the policy of the empty source that the body has
-    (`assignEmptyStatic`, a measured parameter of the model) —, or the body skips the call entirely because both handles already
-    designate the same counted block (harmless change C09-h5: the increment and the decrement of the model cancel each other) -/
-theorem tie_String_assign (st : St) (tid d s : Nat) (hflag : st.assignEmptyStatic = emptyAssignIsStatic String_assign) :
-    noClr (pre st tid (.sAssign d s)) = sem (strCtx st tid d s siteAssign none) String_assign
-    ∨ (∃ b, st.slots s = .blk b ∧ st.slots d = .blk b ∧ sem (strCtx st tid d s siteAssign none) String_assign = []) := by
+/-- a state in which both String variables designate the same counted block -/
+def sharedSt : St := { init 2 with slots := fun _ => .blk 0 }
+
+/-- what the translated `operator=` does when both handles already designate the same counted block: true = nothing at all,
+    false = increment and decrement -/
+def sameAssignSkips (body : Stmt) : Bool := (sem (strCtx sharedSt 0 0 1 siteAssign none) body).isEmpty
+
+/-- `S[d] = S[s]`: the model's list is the translated body, for the two policies of `operator=` that the body has (`assignEmptyStatic`,
+    `assignSameSkip`: parameters of the model measured on the real class; harmless change C09-h5 flips both — neither touches the
+    property: an empty String needs no block, and the increment and the decrement through two handles of one block cancel) -/
+theorem tie_String_assign (st : St) (tid d s : Nat) (hflag : st.assignEmptyStatic = emptyAssignIsStatic String_assign)
+    (hskip : st.assignSameSkip = sameAssignSkips String_assign) :
+    noClr (pre st tid (.sAssign d s)) = sem (strCtx st tid d s siteAssign none) String_assign := by
   simp [emptyAssignIsStatic, sem, exec, isGuard, String_assign, strCtx, evalC, evalP, isBlkDen, isStaticDen, isNoneH, Handle.isBlk,
     setP, emit, init] at hflag
+  simp [sameAssignSkips, sharedSt, sem, exec, isGuard, String_assign, strCtx, evalC, evalP, isBlkDen, isStaticDen, isNoneH, Handle.isBlk,
+    setP, emit, init] at hskip
   cases hs : st.slots s with
   | none =>
-    left
     simp [pre, hs, hflag, rel, noClr, sem, exec, isGuard, String_assign, strCtx, evalC, evalP, isBlkDen, isStaticDen, isNoneH,
       Handle.isBlk, setP, emit, viewVal, view]
   | inl tag val =>
-    left
     simp [pre, hs, rel, noClr, sem, exec, isGuard, String_assign, strCtx, evalC, evalP, isBlkDen, isStaticDen, isNoneH,
       Handle.isBlk, setP, emit, viewVal, view]
   | blk b =>
     by_cases hd : st.slots d = .blk b
-    · first
-      | (left
-         simp [pre, hs, hd, shareAssign, noClr, sem, exec, isGuard, String_assign, strCtx, evalC, evalP, isBlkDen, Handle.isBlk, setP, emit]
-         done)
-      | (right
-         exact ⟨b, rfl, hd, by
-           simp [hs, hd, sem, exec, isGuard, String_assign, strCtx, evalC, evalP, isBlkDen, Handle.isBlk, setP, emit]⟩)
-    · left
-      have hd' : ¬ Handle.blk b = st.slots d := fun e => hd e.symm
-      simp [pre, hs, hd, hd', shareAssign, noClr, sem, exec, isGuard, String_assign, strCtx, evalC, evalP, isBlkDen, Handle.isBlk,
+    · simp [pre, hs, hd, hskip, shareAssign, noClr, sem, exec, isGuard, String_assign, strCtx, evalC, evalP, isBlkDen, Handle.isBlk, setP, emit]
+    · have hd' : ¬ Handle.blk b = st.slots d := fun e => hd e.symm
+      simp [pre, hs, hd, hd', hskip, shareAssign, noClr, sem, exec, isGuard, String_assign, strCtx, evalC, evalP, isBlkDen, Handle.isBlk,
         setP, emit]
 
 /-- `S[d].~String(); new(&S[d]) String` -/
